@@ -1,24 +1,31 @@
 (** C14 — property theorems only. *)
 From Coq Require Import List NArith ZArith Bool.
 From C33 Require Import Lib.Bytes Lib.OMap C14.Model C14.Spec C14.Proofs C14.ProofsMain C14.ProofsQueries.
+Import ListNotations.
 Open Scope Z_scope.
 
 (** Removing a block right after connecting it restores the local DB up to what no query can
     see (counter keys left at an explicit 0, mvcc version key lists) — for every plugin
     configuration, every sorted local DB whose counter keys hold counters, every block whose
-    index entries are new, when every coins transaction with a local effect has receipt ExecOk. *)
-Theorem C14_del_after_add_obs_id_partial : forall c m b kA kD,
+    index entries are new, whatever the receipts of its transactions are. *)
+Theorem C14_del_after_add_obs_id : forall c m b kA kD,
   sorted m -> counters_wf m = true -> fresh c m b = true ->
   exec_add c m b = Some kA -> exec_del c (write_all kA m) b = Some kD ->
-  all_local_ok b = true ->
   obs_eq (write_all kD (write_all kA m)) m.
-Proof. exact del_after_add_partial. Qed.
-Print Assumptions C14_del_after_add_obs_id_partial.
+Proof. exact del_after_add_obs_id. Qed.
+Print Assumptions C14_del_after_add_obs_id.
 
-(** Without that guard the statement is false: a failed coins transfer stays in the receiver total. *)
-Theorem C14_del_after_add_refuted : ~ C14_del_after_add_full.
-Proof. exact del_after_add_refuted. Qed.
-Print Assumptions C14_del_after_add_refuted.
+(** The run that used to refute it (a failed coins self-transfer, receipt ExecPack): the block's
+    index entries are written, the receiver total is not touched, and removal restores the
+    local DB. *)
+Theorem C14_failed_transfer_no_local_effect : exists kA kD,
+  exec_add node_cfg [] w_blk = Some kA /\ exec_del node_cfg (write_all kA []) w_blk = Some kD /\
+  all_local_ok w_blk = false /\
+  get (coins_key w_addr) (write_all kA []) = None /\
+  get (tx_key (t_hash w_tx)) (write_all kA []) <> None /\
+  obs_eq (write_all kD (write_all kA [])) [].
+Proof. exact failed_transfer_no_local_effect. Qed.
+Print Assumptions C14_failed_transfer_no_local_effect.
 
 (** No modelled query (tx by hash, per-address lists, fee lists, per-address count, coins receiver
     total, fee total by block hash, the entries every multi-version read looks at) distinguishes a
@@ -36,10 +43,9 @@ Proof. exact queries_invariant. Qed.
 Print Assumptions C14_queries_invariant.
 
 (** Hence every query answer is restored. *)
-Theorem C14_del_after_add_queries_partial : forall c m b kA kD,
+Theorem C14_del_after_add_queries : forall c m b kA kD,
   sorted m -> counters_wf m = true -> fresh c m b = true ->
   exec_add c m b = Some kA -> exec_del c (write_all kA m) b = Some kD ->
-  all_local_ok b = true ->
   let m2 := write_all kD (write_all kA m) in
   (forall h, q_tx m2 h = q_tx m h) /\
   (forall a, q_addr_txs m2 a = q_addr_txs m a) /\
@@ -50,12 +56,11 @@ Theorem C14_del_after_add_queries_partial : forall c m b kA kD,
   (forall bh, q_total_fee m2 bh = q_total_fee m bh) /\
   q_mvcc_entries m2 = q_mvcc_entries m.
 Proof. exact del_after_add_queries. Qed.
-Print Assumptions C14_del_after_add_queries_partial.
+Print Assumptions C14_del_after_add_queries.
 
-(** Whatever the receipts are: every index entry proper (transaction by hash and short hash,
-    address lists, fee lists, fee totals, multi-version data and version entries) is restored
-    exactly, and so is every per-address transaction count — only the coins receiver total
-    depends on the guard. *)
+(** Exactly, not only up to the normal form: every index entry proper (transaction by hash and
+    short hash, address lists, fee lists, fee totals, multi-version data and version entries) is
+    restored, and so is every per-address transaction count. *)
 Theorem C14_index_entries_exact : forall c m b kA kD,
   sorted m -> fresh c m b = true ->
   exec_add c m b = Some kA -> exec_del c (write_all kA m) b = Some kD ->
@@ -71,13 +76,14 @@ Proof. exact addr_counts_restored. Qed.
 Print Assumptions C14_addr_counts_restored.
 
 (** The hypotheses are satisfiable by a non-trivial state: every plugin on (mvcc included), a
-    block at height 1 with a transfer, a transaction without local effect and state writes, on a
+    block at height 1 with a transfer, a transaction without local effect, a failed transfer
+    (so [all_local_ok] is false) and state writes, on a
     local DB that already has counters, totals and version 0; the intermediate and the final map
     differ from the initial one (explicit counters / key list stay). *)
 Theorem C14_hyps_satisfiable : exists kA kD,
   sorted ex_m /\ counters_wf ex_m = true /\ fresh ex_cfg ex_m ex_b = true /\
   exec_add ex_cfg ex_m ex_b = Some kA /\ exec_del ex_cfg (write_all kA ex_m) ex_b = Some kD /\
-  all_local_ok ex_b = true /\ (length kA > 10)%nat /\ write_all kA ex_m <> ex_m /\
+  all_local_ok ex_b = false /\ (length kA > 10)%nat /\ write_all kA ex_m <> ex_m /\
   write_all kD (write_all kA ex_m) <> ex_m.
 Proof. exact main_hyps_satisfiable. Qed.
 Print Assumptions C14_hyps_satisfiable.
